@@ -4,6 +4,9 @@ import os
 import signal
 import sys
 import traceback
+import warnings
+
+warnings.simplefilter("ignore")
 
 REPO = os.environ.get("VERIF_REPO", "/repo")
 sys.path.insert(0, REPO)
